@@ -284,9 +284,23 @@ def evaluate(initial, events, final_project, sim_seed, fresh_kwargs, reverted_en
     summary["last_ok"] = last.ok
     if not fresh.ok:
         if last.ok:
-            # The reference itself does not succeed (e.g. an amended output of an optional step is
-            # consumed): nothing to compare with.
+            # The incremental build succeeds where a build from scratch of the same sources does not.
             summary["skipped"] = "from-scratch build not successful, incremental build successful"
+            cause = "unexplained"
+            import re as _re
+
+            block = None
+            for line in (final.graph_canon or "").splitlines():
+                if line and not line.startswith(" "):
+                    block = line.strip()
+                elif block and block.startswith("step:") and _re.match(r"\s+source\s+\(file:", line):
+                    cause = "consumer-of-dropped-producer"  # an attached step consumes a detached file
+                    break
+            found.append((f"incremental-build-succeeds-where-scratch-is-{buildkit.rc_class(fresh)}:{cause}",
+                          f"the last build of the history ended with {last.returncode!r} while a build from scratch of "
+                          f"the same sources ends with {fresh.returncode!r}",
+                          {"scratch_returncode": repr(fresh.returncode),
+                           "scratch_warnings": [e[1] for e in fresh.events if e[0] == "WARNING"][:4]}))
         return found, summary
     if not last.ok:
         found.append(("incremental-build-fails",
@@ -597,21 +611,41 @@ def run_detached_edit_case(ctx, index: int, *, salt="detached-edit"):
     from simdirector import A, Project, plan_file
 
     r = ctx.rng(salt, index)
-    watch = index % 2 == 1
+    what = ("file", "file", "env", "glob")[(index // 2) % 4]
+    watch = index % 2 == 1 and what != "env"  # a running director does not see a changed environment
     ncons = r.randint(1, 2)
-    sub = [A.static("sub/in.txt")] + [A.step(f"copy {i}", inp=["sub/in.txt"], out=[f"sub/out{i}.txt"]) for i in range(ncons)]
+    env = {}
+    scripts = {}
+    if what == "file":
+        sub = [A.static("sub/in.txt")] + [A.step(f"copy {i}", inp=["sub/in.txt"], out=[f"sub/out{i}.txt"])
+                                          for i in range(ncons)]
+        edit = r.choice([("write", "sub/in.txt", "new\n"), ("write", "sub/in.txt", "new\n"), ("remove", "sub/in.txt")])
+    elif what == "env":
+        sub = [A.static("sub/in.txt")] + [A.step(f"copy {i}", inp=["sub/in.txt"], out=[f"sub/out{i}.txt"], env=["C01_MODE"])
+                                          for i in range(ncons)]
+        for i in range(ncons):
+            scripts[f"copy {i}"] = [A.read_declared(), A.write_declared()]
+        env = {"C01_MODE": "a"}
+        edit = ("setenv", "C01_MODE", "b")
+    else:
+        sub = [A.foreach("sub/${*n}.txt", [A.step("bak ${n}", inp=["${path}"], out=["out/${n}.bak"])], static=True)]
+        edit = ("write", "sub/b.txt", "b\n")
     plan1 = [A.static("sub.py"), A.step("./sub.py", inp=["sub.py"], plan=True)]
     plan2 = [A.step("boom", out=["boom.txt"])]  # the sub-plan is gone and the build fails: no cleanup
-    scripts = {"./plan.py": plan1, "./sub.py": sub, "boom": [A.exit(1)]}
+    scripts.update({"./plan.py": plan1, "./sub.py": sub, "boom": [A.exit(1)]})
     files = {"plan.py": plan_file(plan1), "sub.py": plan_file(sub), "sub/in.txt": "old\n"}
-    initial = Project(scripts=dict(scripts), files=dict(files))
-    edit = r.choice([("write", "sub/in.txt", "new\n"), ("write", "sub/in.txt", "new\n"), ("remove", "sub/in.txt")])
-    final_files = dict(files)
+    if what == "glob":
+        del files["sub/in.txt"]
+        files["sub/a.txt"] = "a\n"
+    initial = Project(scripts=dict(scripts), files=dict(files), env=dict(env))
+    final_files, final_env = dict(files), dict(env)
     if edit[0] == "write":
-        final_files["sub/in.txt"] = edit[2]
+        final_files[edit[1]] = edit[2]
+    elif edit[0] == "remove":
+        del final_files[edit[1]]
     else:
-        del final_files["sub/in.txt"]
-    final = Project(scripts=dict(scripts), files=final_files)
+        final_env[edit[1]] = edit[2]
+    final = Project(scripts=dict(scripts), files=final_files, env=final_env)
     drop = [("script", "./plan.py", plan2, ""), ("write", "plan.py", plan_file(plan2))]
     back = [("script", "./plan.py", plan1, ""), ("write", "plan.py", plan_file(plan1))]
     first = {"njob": 1, "watch": True} if watch else {"njob": 1}
@@ -626,14 +660,33 @@ def run_detached_edit_case(ctx, index: int, *, salt="detached-edit"):
     seed = r.randrange(1 << 30)
     found, summary = evaluate(initial, events, final, seed, {"njob": 1})
     mode = "watch" if watch else "restart"
-    case = {"family": "detached-edit", "mode": mode, "edit": list(edit[:2]), "consumers": ncons,
+    case = {"family": "detached-edit", "what": what, "mode": mode, "edit": list(edit[:2]), "consumers": ncons,
             "compared": bool(summary.get("fresh_ok")) or edit[0] == "remove"}
+    kind = {"file": "static-input-edited", "env": "environment-changed", "glob": "glob-match-added"}[what]
     out = []
-    for sig, what, extra in found:
+    for sig, what_, extra in found:
         if not sig.startswith(("out-of-scope:", "director-")):
-            sig = f"{sig}:static-input-edited-while-detached:{mode}"
-        out.append((sig, what, {**case, **extra, "events": buildkit.describe_events(events)}))
+            sig = f"{sig.split(':')[0]}:{kind}-while-detached:{mode}"
+        out.append((sig, what_, {**case, **extra, "events": buildkit.describe_events(events)}))
     return out, case
+
+
+def run_dropped_producer_case():
+    """The sub-plan that produces an input of a step of the parent plan is dropped; the consumer stays."""
+    from simdirector import A, Project, plan_file
+
+    sub = [A.step("make", out=["sub/x.txt"])]
+    use = A.step("use", inp=["sub/x.txt"], out=["z.txt"])
+    plan1 = [A.static("sub.py"), A.step("./sub.py", inp=["sub.py"], plan=True), use]
+    plan2 = [use]
+    scripts = {"./plan.py": plan1, "./sub.py": sub, "make": [A.write("sub/x.txt", "hello\n")]}
+    files = {"plan.py": plan_file(plan1), "sub.py": plan_file(sub)}
+    initial = Project(scripts=dict(scripts), files=dict(files))
+    final = Project(scripts={**scripts, "./plan.py": plan2}, files={**files, "plan.py": plan_file(plan2)})
+    events = [("build", {"njob": 1}), ("edits", [("script", "./plan.py", plan2, ""), ("write", "plan.py", plan_file(plan2))]),
+              ("build", {"njob": 1})]
+    found, summary = evaluate(initial, events, final, 1, {"njob": 1})
+    return found, {"family": "dropped-producer", "events": buildkit.describe_events(events)}
 
 
 def report(ctx, index, salt, found, hist):
@@ -732,11 +785,11 @@ async def search(ctx):
                 "how": "props/c01.py run_timing_case(ctx, index): a producer/consumer project built without the "
                        "consumer, then the source is edited and the consumer (reads first, amends afterwards) is added; "
                        "rebuild with 3-5 jobs under a random schedule; compared with a one-job build from scratch"}))
-    for i in range(ctx.budget(8, 60)):
+    for i in range(ctx.budget(16, 120)):
         found, case = await asyncio.to_thread(run_detached_edit_case, ctx, i)
-        st.case(("detached-edit", case["mode"], tuple(case["edit"]), case["consumers"]), nontrivial=True)
+        st.case(("detached-edit", case["what"], case["mode"], tuple(case["edit"]), case["consumers"]), nontrivial=True)
         st.programs += 1
-        st.count("detached-edit-histories:" + case["mode"])
+        st.count(f"detached-edit-histories:{case['what']}:{case['mode']}")
         for sig, what, extra in found:
             if sig.startswith("out-of-scope:"):
                 st.count(sig)
@@ -747,6 +800,15 @@ async def search(ctx):
                 "how": "props/c01.py run_detached_edit_case(ctx, index): a sub-plan that declares a static input is "
                        "dropped in a build that fails (no cleanup), the input is edited, the sub-plan is added back; "
                        "compared with a build from scratch of the final sources"}))
+    found, case = await asyncio.to_thread(run_dropped_producer_case)
+    st.programs += 1
+    st.count("dropped-producer-scenario")
+    for sig, what, extra in found:
+        if sig.startswith("out-of-scope:"):
+            continue
+        st.count("finding:" + sig)
+        ctx.finding(Finding(PID, sig, what, {**case, **extra, "how": "props/c01.py run_dropped_producer_case(); "
+                                                                   "harness/repro/c01_consumer_of_dropped_producer.py"}))
     for i in range(ctx.budget(20, 250)):
         found, case = await asyncio.to_thread(run_redef_case, ctx, i)
         st.case(("redef", tuple(sorted((k, str(v)) for k, v in case.items()))))
